@@ -23,18 +23,19 @@ type PkgInfo struct {
 }
 
 type World struct {
-	RepoDir   string
-	Fset      *token.FileSet
-	Pkgs      map[string]*PkgInfo
-	Contracts map[string]*Contract // pkgpath + "::" + key
-	Preds     map[string]*PredDef  // pkgpath + "::" + name
-	Frames    []*FrameDecl
-	TypeInvs  map[string]*TypeInv    // qualified type name -> invariant
-	Ghosts    map[string]*GhostField // pkgpath.Type.$name
-	Axioms    []*AxiomDecl
-	SpecFiles []*SpecFile
-	Overlay   map[string][]byte
-	fileCache map[string][]byte
+	RepoDir       string
+	Fset          *token.FileSet
+	Pkgs          map[string]*PkgInfo
+	Contracts     map[string]*Contract // pkgpath + "::" + key
+	Preds         map[string]*PredDef  // pkgpath + "::" + name
+	Frames        []*FrameDecl
+	TypeInvs      map[string]*TypeInv    // qualified type name -> invariant
+	Ghosts        map[string]*GhostField // pkgpath.Type.$name
+	Axioms        []*AxiomDecl
+	SpecFiles     []*SpecFile
+	Overlay       map[string][]byte
+	fileCache     map[string][]byte
+	immutableKeys []string
 }
 
 func loadWorld(repo string, patterns []string, overlay map[string][]byte) (*World, error) {
